@@ -14,7 +14,8 @@ EXPLANATION = ("Necessary structural clauses of C01 decided from MIR/HIR: cluste
                "it; the 12-bit blob index packing against MAX_BLOBS_PER_CLUSTER and the split/assert guards; the out-of-range guard "
                "of ContentPack::get_content; the cap and origin-relative coordinates of the file-range reader; agreement of the three "
                "compression tables (creator enum -> stored tag -> compressor / decompressor); data located at tail - stored size on "
-               "both sides; the entropy sampling rewinds the input. Byte equality for any input is not decided.")
+               "both sides; the entropy sampling rewinds the input. Byte equality for any input is not decided."
+               " (R11-R13) reader blob extraction [offsets[i], offsets[i+1]), content id -> (cluster, blob) resolution keyed by the values read for that content, creator addresses = position of the info pushed, both vectors of a cluster grow on every successful add_content; (R14) the deduplicating adder keys on the Blake3 of the whole content (= C16-R4).")
 ASSUMPTIONS = ["compression libraries round-trip (lz4, xz2, zstd)", "std::io semantics", "rustc MIR/HIR construction and trait resolution"]
 
 
